@@ -251,6 +251,11 @@ def parse_many(tasks, chunksize=64):
     return [outs[i] for i in order], len(uniq)
 
 
+def jnorm(x):
+    """JSON round trip: the shape in which results cross process boundaries (tuples become lists)"""
+    return json.loads(json.dumps(x, default=repr))
+
+
 def digest(x):
     return hashlib.sha1(json.dumps(x, sort_keys=True, default=repr).encode()).hexdigest()[:12]
 
